@@ -63,6 +63,19 @@ pub fn run(tier: Tier) -> Run {
                     al.push(BOp::TypeCall(si, Some(1), 0));
                     al.push(BOp::TypeCall(si, Some(77), 0));
                 }
+                // a declaration (of another kind) whose RESULT id is one of the ids the base request refers to: a type
+                // may be requested before the ids it uses are declared (forward references), and that declaration
+                // arriving later must not hide the earlier identical request from the dedup
+                let base = bsys::type_call_inst(s, &bsys::type_call_args(s, None, 0), None);
+                let mut used: Vec<u32> = base.args.iter().filter_map(|a| match a { crate::model::Arg::IdRef(x) | crate::model::Arg::IdScope(x) => Some(*x), _ => None }).collect();
+                used.sort();
+                used.dedup();
+                let int_id = sites.iter().position(|x| x.name == "type_int_id").expect("type_int_id");
+                for x in used.into_iter().take(2) {
+                    if si != int_id {
+                        al.push(BOp::TypeCall(int_id, Some(x), 0));
+                    }
+                }
                 xs::enumerate(&al, d_site, &f)
             })
             .collect()
